@@ -399,7 +399,8 @@ XInit ==
   /\ rwire = <<>> /\ returned = <<>> /\ cerr = "none"
 XNext == (IF pc = "route" /\ \E i \in PIdx : wire[i].loc # "none" /\ Malformed(wire[i].v) THEN XTypeReject ELSE Next) /\ UNCHANGED xflag
 \* request family: the exchange above; response family: HTTPTransport's own enumeration (Family = "res")
-XSpec == (IF Family = "req" THEN XInit ELSE Init /\ xflag = "none") /\ OInit /\ [][XNext /\ UNCHANGED ovars]_<<hvars, ovars>>
+\* with several attributes per method (simulation) the exchange is drawn attribute by attribute by HTTPTransport's Init / Pick*
+XSpec == (IF Family = "req" /\ NPA = 1 THEN XInit ELSE Init /\ xflag = "none") /\ OInit /\ [][XNext /\ UNCHANGED ovars]_<<hvars, ovars>>
 
 \* C14
 Answered == pc \in {"cswitch", "cdecode", "cvalidate", "done"}          \* the server has answered
